@@ -5,12 +5,21 @@ Tie: E1 — random histories (<= 10 API calls) over a pool of small models execu
 between the steps; the final observable is compared (a) with the same model compiled in a FRESH interpreter (full
 observable, exact) and (b) with the model's prediction evaluated inside Coq (names, k values, state map, dy, or the
 exception class; also the exception class of every step of the history)."""
-import json, os, sys, subprocess, tempfile, shutil
+import json, os, re, sys, subprocess, tempfile, shutil
 from concurrent.futures import ThreadPoolExecutor
 from fractions import Fraction as Fr
 from core import *
 
 NEEDS = ["Caches", "CachesProofs", "Corr"]
+
+def fixed_clear():
+    """the one-line switch of Caches.v (false = PyRates as it is, true = proposed_fix_C13_clear.diff applied);
+    VERIF_C13_FIXED=1/0 overrides it for trying the fix on a scratch worktree"""
+    env = os.environ.get("VERIF_C13_FIXED")
+    if env in ("0", "1"):
+        return env == "1"
+    txt = open(os.path.join(COQ, "theories", "Caches.v")).read()
+    return re.search(r"Definition fixed_clear : bool := (true|false)\.", txt).group(1) == "true"
 
 EQS = {"E1": "d/dt * x = -k*x + r", "E2": "d/dt * x = k*x*x - r"}
 COQ_EQ = {"E1": "E1", "E2": "E2"}
@@ -72,16 +81,22 @@ def build(m):
     es = [(f"{s}/{opof[s]}/x", f"{t}/{opof[t]}/r", None, {'weight': float(Fr(w))}) for s, t, w in edges]
     return CircuitTemplate(name="net", nodes=nd, edges=es, path=None)
 
-def observe(c, vec, clr, inplace, ops=None):
+def call(f, a):
+    """default backend: the function returns dy; Fortran (f2py): dy is an in/out argument and nothing is returned"""
+    import numpy as np
+    r = f(*a)
+    return np.array(a[2] if r is None else r)
+
+def observe(c, vec, clr, inplace, ops=None, backend='default', file='m'):
     import numpy as np
     from pyr import fracs
     kw = dict(ops=ops) if ops else {}
-    f, args, names, smap = c.get_run_func('f', 0.125, file_name='m', backend='default', solver='euler', vectorize=vec,
+    f, args, names, smap = c.get_run_func('f', 0.125, file_name=file, backend=backend, solver='euler', vectorize=vec,
                                           float_precision='float64', in_place=inplace, clear=clr, verbose=False, **kw)
     vals = [fracs(v) for v in args[3:]]              # before the call: the function writes into its buffers
     n = len(args[1])
     a = list(args); a[1] = np.array([0.25 * (i + 1) for i in range(n)])
-    dy = fracs(np.array(f(*a)))
+    dy = fracs(call(f, a))
     sm = sorted(([k, [int(v[0]), int(v[1])] if isinstance(v, tuple) else [int(v), int(v) + 1]] for k, v in smap.items()),
                 key=lambda e: (e[1][0], e[0]))
     return dict(names=list(names[3:]), vals=vals, smap=sm, dy=dy), (f, a, dy)
@@ -100,9 +115,19 @@ def run_steps(case, fresh):
     def one(op):
         kind = op[0]
         try:
-            if kind in ("compile", "run", "yload"):
+            if kind == "fcompile":
+                c = build(op[1]); handles.append(c)
+                o, fn = observe(c, False, op[3], False, backend='fortran', file=op[2])
+                funcs.append(fn)
+                return dict(ok="compile", **o)
+            if kind in ("compile", "run", "jac", "yload"):
                 c = CircuitTemplate.from_yaml(YPATH) if kind == "yload" else build(op[1])
                 handles.append(c)
+                if kind == "jac":
+                    kw = dict(ops=helper(op[1])) if op[1] in HPOOL else {}
+                    c.get_jacobian_func('j', 0.125, file_name='m', backend='default', solver='euler', vectorize=op[2], clear=op[3],
+                                        in_place=op[4], verbose=False, float_precision='float64', **kw)
+                    return dict(ok="jac")
                 if kind == "run":
                     opn = "oh" if op[1] in HPOOL else POOL[op[1]][0][0][1]
                     kw = dict(ops=helper(op[1])) if op[1] in HPOOL else {}
@@ -129,7 +154,7 @@ def run_steps(case, fresh):
         stable = True       # functions returned earlier keep computing their own model
         for f, a, dy in (funcs[:-1] if final.get("ok") == "compile" else funcs):
             try:
-                stable = stable and fracs(np.array(f(*a))) == dy
+                stable = stable and fracs(call(f, a)) == dy
             except Exception:
                 stable = False
     finally:
@@ -168,7 +193,7 @@ def gen_case(rng, maxlen=10):
     for _ in range(n):
         r = rng.random()
         if r < 0.5:
-            hist.append([rng.choice(["compile", "compile", "run"]), rng.choice(MODELS), rng.random() < 0.5,
+            hist.append([rng.choice(["compile", "compile", "run", "jac"]), rng.choice(MODELS), rng.random() < 0.5,
                          rng.random() < pclear, rng.random() < 0.4]); nh += 1
         elif r < 0.6:
             hist.append(["yload", None, False, rng.random() < pclear, False]); nh += 1
@@ -188,13 +213,34 @@ def gen_case(rng, maxlen=10):
     return dict(hist=hist, final=final)
 
 def is_ops(case):
-    return any(o[0] in ("compile", "run") and o[1] in HPOOL for o in case["hist"] + [case["final"]])
+    return any(o[0] in ("compile", "run", "jac") and o[1] in HPOOL for o in case["hist"] + [case["final"]])
+
+def is_fortran(case):
+    return any(o[0] == "fcompile" for o in case["hist"] + [case["final"]])
+
+FMODELS = ["M0", "M1", "M2"]      # one node, no edge: the same routine signature f(t,y,dy,k,r), so that a stale routine is called silently
+def gen_fortran_case(rng):
+    """<= 3 Fortran compilations (~3-6 s each) + the final one, mixed with default-backend compilations and clears"""
+    hist, nh, nf = [], 0, 0
+    for _ in range(rng.randint(1, 5)):
+        r = rng.random()
+        if r < 0.45 and nf < 3:
+            hist.append(["fcompile", rng.choice(FMODELS), rng.choice(["m", "m", "n"]), rng.random() < 0.7]); nh += 1; nf += 1
+        elif r < 0.7:
+            hist.append(["compile", rng.choice(FMODELS), False, rng.random() < 0.6, False]); nh += 1
+        elif r < 0.8:
+            hist.append(["mclear", nh - 1 if nh else 0])
+        elif r < 0.9:
+            hist.append(["uclear", nh - 1 if nh else 0])
+        else:
+            hist.append(["cfc", True, True])
+    return dict(hist=hist, final=["fcompile", rng.choice(FMODELS), rng.choice(["m", "m", "n"]), False])
 
 def disciplined_py(case):
     """syntactic guard of the ops= stream: every compile/run asks for clear=True or is directly followed by circuit.clear() on it"""
     nh, h = 0, case["hist"]
     for i, o in enumerate(h):
-        if o[0] in ("compile", "run", "yload"):
+        if o[0] in ("compile", "run", "jac", "yload"):
             nh += 1
             if not o[3] and not (i + 1 < len(h) and h[i + 1] == ["mclear", nh - 1]):
                 return False
@@ -207,7 +253,7 @@ def gen_ops_case(rng):
     for _ in range(rng.randint(1, 4)):
         m = rng.choice(sorted(HPOOL) + ["M0"])
         clr = rng.random() < 0.6
-        hist.append([rng.choice(["compile", "compile", "run"]), m, rng.random() < 0.5, clr, rng.random() < 0.4]); nh += 1
+        hist.append([rng.choice(["compile", "compile", "run", "jac"]), m, rng.random() < 0.5, clr, rng.random() < 0.4]); nh += 1
         if not clr:
             hist.append(["mclear", nh - 1])
     return dict(hist=hist, final=["compile", rng.choice(sorted(HPOOL)), rng.random() < 0.5, False, False])
@@ -225,11 +271,14 @@ def all_finals():
 def overlap(case):
     """non-triviality: an earlier compilation shares the file name (always 'm') and a node label / operator name / structural
     class with the final model — every pool model has a node `A` — so: history contains >= 1 compile/run/yload step"""
-    return any(o[0] in ("compile", "run", "yload") for o in case["hist"])
+    return any(o[0] in ("compile", "run", "jac", "fcompile", "yload") for o in case["hist"])
 
 # ---------------------------------------------------------------------------------------------- model side
+def header():
+    return HEADER.replace("@FX@", cbool(fixed_clear()))
+
 HEADER = """From Coq Require Import List String ZArith QArith Qcanon Bool.
-From PV Require Import Caches Corr.
+From PV Require Import Caches CachesProofs Corr.
 Import ListNotations.
 Open Scope string_scope.
 Definition E2 : expr := Add (Mul VK (Mul VX VX)) (Neg VR).
@@ -239,19 +288,27 @@ Definition MD (ns : list mnode) (es : list (string * string * Qc)) : model := {|
 """ + "".join(
     f"Definition {name} : model := MD {clist([f'(N {cstr(l)} {cstr(o)} {COQ_EQ[e]} {cq(k)} {copt(ov, cq)})' for l, o, e, k, ov in nodes])} "
     f"{clist([f'({cstr(s)}, {cstr(t)}, {cq(w)})' for s, t, w in edges])}.\n" for name, (nodes, edges) in sorted(POOL.items())) + """
+Definition FX : bool := @FX@.
 Definition case := (list hop * hop * list string * obs)%type.
-Definition modelled (c : case) : obs := let '(h, f, _, _) := c in snd (step (run_hist h G0) f).
+Definition modelled (c : case) : obs := let '(h, f, _, _) := c in snd (step_with FX (run_hist_with FX h G0) f).
 Definition okI (c : case) : bool := let '(h, f, tr, ob) := c in
-  list_eqb String.eqb (map cls (trace h G0)) tr && obs_eqb (snd (step (run_hist h G0) f)) ob.
-Definition okS (c : case) : bool := let '(h, f, _, ob) := c in obs_eqb (snd (step G0 f)) ob.
-Definition gC (c : case) : bool := let '(h, _, _, _) := c in CachesClean h.
-Definition gT (c : case) : bool := let '(h, _, _, _) := c in TemplateClean h.
+  list_eqb String.eqb (map cls (trace_with FX h G0)) tr && obs_eqb (snd (step_with FX (run_hist_with FX h G0) f)) ob.
+Definition okS (c : case) : bool := let '(h, f, _, ob) := c in obs_eqb (snd (step_with FX G0 f)) ob.
+(* guards, by what the final call reads: default backend = the frontend caches; Fortran = also the module tables *)
+Definition gC (c : case) : bool := let '(h, f, _, _) := c in
+  match f with FCompile _ _ _ => caches_clean (run_hist_with FX h G0) | _ => frontend_clean (run_hist_with FX h G0) end.
+Definition gT (c : case) : bool := let '(h, f, _, _) := c in
+  match f with YLoad _ => template_clean (run_hist_with FX h G0) | _ => true end.
+Definition gF (c : case) : bool := let '(h, f, _, _) := c in
+  match f with FCompile _ _ _ => fortran_clean (run_hist_with FX h G0) | _ => true end.
 """
 
 def coq_hop(op):
     k = op[0]
-    if k in ("compile", "run"):
-        return f"({'Compile' if k == 'compile' else 'Run'} {op[1]} {cbool(op[2])} {cbool(op[3])} {cbool(op[4])})"
+    if k in ("compile", "run", "jac"):
+        return f"({dict(compile='Compile', run='Run', jac='Jac')[k]} {op[1]} {cbool(op[2])} {cbool(op[3])} {cbool(op[4])})"
+    if k == "fcompile":
+        return f"(FCompile {op[1]} {cstr(op[2])} {cbool(op[3])})"
     if k == "yload":
         return f"(YLoad {cbool(op[3])})"
     if k == "yupd":
@@ -277,23 +334,23 @@ def coq_case(case, out):
             f"{clist([cstr(t) for t in out['trace']])}, {abstract(out['final'])})")
 
 def model_compare(ctx, cases, outs, tag):
-    """index lists: real != Impl (history model), real != Spec (fresh-state model), CachesClean false, TemplateClean false"""
-    res = [[], [], [], []]
+    """index lists: real != Impl (history model), real != Spec (fresh-state model), guards CachesClean / TemplateClean / FortranClean false"""
+    res = [[], [], [], [], []]
     shard = 80
     for s in range(0, len(cases), shard):
         terms = [coq_case(c, o) for c, o in zip(cases[s:s + shard], outs[s:s + shard])]
         body = ("Definition cases : list case := " + clist(terms) + ".\n" +
-                "".join(f"Eval vm_compute in (mismatches {f} cases).\n" for f in ("okI", "okS", "gC", "gT")))
-        ls = parse_nat_lists(coq_eval(ctx, f"c13_{tag}_{s}", HEADER, body))
-        assert len(ls) == 4, ls
-        for k in range(4):
+                "".join(f"Eval vm_compute in (mismatches {f} cases).\n" for f in ("okI", "okS", "gC", "gT", "gF")))
+        ls = parse_nat_lists(coq_eval(ctx, f"c13_{tag}_{s}", header(), body))
+        assert len(ls) == 5, ls
+        for k in range(5):
             res[k] += [s + i for i in ls[k]]
     return res
 
 def model_output(ctx, case, out, tag):
-    body = f"Definition c : case := {coq_case(case, out)}.\nEval vm_compute in (modelled c).\nEval vm_compute in (gC c, gT c).\n"
+    body = f"Definition c : case := {coq_case(case, out)}.\nEval vm_compute in (modelled c).\nEval vm_compute in (gC c, gT c, gF c).\n"
     try:
-        return coq_eval(ctx, f"c13_show_{tag}", HEADER, body)[:5000]
+        return coq_eval(ctx, f"c13_show_{tag}", header(), body)[:5000]
     except Exception as e:
         return f"(model evaluation failed: {e})"
 
@@ -303,27 +360,35 @@ def differs(out, fresh):
     return out["final"] != fresh or not out["stable"]
 
 def evaluate(ctx, cases, tag):
-    outs = run_impl(ctx, "c13", "impl", cases, per_case_timeout=120)
+    # an imported Fortran extension module cannot be unloaded (that is D29): histories with Fortran compilations get a worker
+    # process of their own, the others share workers (reset_pyrates before each history)
+    outs = [None] * len(cases)
+    plain = [i for i, c in enumerate(cases) if not is_fortran(c)]
+    fort = [i for i, c in enumerate(cases) if is_fortran(c)]
+    for i, r in zip(plain, run_impl(ctx, "c13", "impl", [cases[i] for i in plain], per_case_timeout=120)):
+        outs[i] = r
+    jobs = int(os.environ.get("VERIF_JOBS", "6"))
+    for s0 in range(0, len(fort), jobs):
+        part = fort[s0:s0 + jobs]
+        for i, r in zip(part, run_impl(ctx, "c13", "impl", [cases[i] for i in part], nworkers=len(part), per_case_timeout=240)):
+            outs[i] = r
     crashed = [i for i, r in enumerate(outs) if "final" not in r]
     fresh = fresh_results(ctx, [c["final"] for c in cases])
     good_all = [i for i in range(len(cases)) if i not in crashed]
     good = [i for i in good_all if not is_ops(cases[i])]          # the cases the Coq model covers
-    badI, badS, gC, gT = model_compare(ctx, [cases[i] for i in good], [outs[i] for i in good], tag) if good else ([], [], [], [])
+    badI, badS, gC, gT, gF = model_compare(ctx, [cases[i] for i in good], [outs[i] for i in good], tag) if good else ([], [], [], [], [])
     badI = [good[i] for i in badI]; badS = [good[i] for i in badS]
     guard_viol = {}
     for i in gC:
         guard_viol.setdefault(good[i], []).append("CachesClean")
     for i in gT:
         guard_viol.setdefault(good[i], []).append("TemplateClean")
+    for i in gF:
+        guard_viol.setdefault(good[i], []).append("FortranClean")
     for i in good_all:
         if is_ops(cases[i]) and not disciplined_py(cases[i]):
             guard_viol[i] = ["CachesClean"]
     good = good_all
-    for i in list(guard_viol):       # a dirty template cache only matters to a final from_yaml
-        if cases[i]["final"][0] != "yload" and "TemplateClean" in guard_viol[i]:
-            guard_viol[i].remove("TemplateClean")
-            if not guard_viol[i]:
-                del guard_viol[i]
     leak = [i for i in good if differs(outs[i], fresh[canon(cases[i]["final"])])]
     fresh_bad = [k for k, v in fresh.items() if "err" in v and v["err"] == "fresh-interpreter-failed"]
     return dict(outs=outs, crashed=crashed, fresh=fresh, badI=badI, badS=sorted(set(badS) | set(leak)), leak=leak,
@@ -354,7 +419,11 @@ def check(ctx):
         rp = json.load(open(ctx.replay))
         cases = [dict(hist=rp["case"]["hist"], final=rp["case"]["final"])] if "case" in rp else []
     else:
-        cases = ([dict(hist=c["hist"], final=c["final"]) for c in corpus] + [dict(hist=[], final=f) for f in all_finals()] +
+        if ctx.tier == "quick":       # Fortran compilations (f2py, ~3-6 s each) belong to the thorough tier
+            corpus = [c for c in corpus if not is_fortran(c)]
+        fort = [] if ctx.tier == "quick" else [dict(hist=[], final=["fcompile", m, "m", False]) for m in FMODELS] + \
+               [gen_fortran_case(ctx.rng) for _ in range(24)]
+        cases = ([dict(hist=c["hist"], final=c["final"]) for c in corpus] + [dict(hist=[], final=f) for f in all_finals()] + fort +
                  [gen_case(ctx.rng) for _ in range(n)] + ops_directed() + [gen_ops_case(ctx.rng) for _ in range(6 if ctx.tier == "quick" else 80)])
     ev = evaluate(ctx, cases, "main")
     outs, gv = ev["outs"], ev["guard_viol"]
@@ -365,7 +434,8 @@ def check(ctx):
              f"guard-satisfying {len(compat)}, guard-violating {len(gv)}; result differs from fresh interpreter on {len(ev['leak'])} "
              f"(of which inside the guard: {len([i for i in ev['leak'] if i not in gv])}); impl-vs-Impl mismatches {len(ev['badI'])} "
              f"(inside the guard: {len([i for i in ev['badI'] if i not in gv])}); harness/worker errors {len(ev['crashed'])}; "
-             f"of the histories {sum(1 for c in cases if is_ops(c))} are the ops= stream (user helper functions; real code vs fresh interpreter only)")
+             f"of the histories {sum(1 for c in cases if is_ops(c))} are the ops= stream (user helper functions; real code vs fresh interpreter only), "
+             f"{sum(1 for c in cases if is_fortran(c))} contain Fortran compilations; model switch fixed_clear={fixed_clear()}")
     def show(c):
         e = evaluate(ctx, [c], "show")
         o = e["outs"][0]
@@ -394,22 +464,24 @@ def check(ctx):
                             compile_vectorized=sum(1 for c in cases if c["final"][0] == "compile" and c["final"][2]),
                             from_yaml=sum(1 for c in cases if c["final"][0] == "yload")))
     write_evidence(ctx, evaluations=len(cases), distinct_nontrivial=len(nt),
-                   rule="random histories (<= 10 calls: construct+get_run_func / construct+run with vectorize, clear, in_place; from_yaml+"
+                   rule="random histories (<= 10 calls: construct+get_run_func / run / get_jacobian_func with vectorize, clear, in_place; from_yaml+"
                         "get_run_func; from_yaml+update_var; circuit.clear(); pyrates.clear(circuit); clear_frontend_caches(tc, ic)) over a pool of 7 "
                         "models (same operator name with another equation / another default, same structure under another operator name, two "
                         "templates with one name, 1/2/3 nodes) run in one process without reset, final model compared with a fresh interpreter; "
                         "plus a real-code-only stream of disciplined histories over three models whose equation calls a helper passed through ops= (same "
                         "function text, different helper definitions); non-trivial = the history contains >= 1 earlier compilation (it shares the file name and the node label `A`, mostly also "
                         "the operator name or the structural class, with the final model); distinct = distinct canonical JSON",
-                   samples=[c for c in cases if overlap(c)][:3], extra=dict(input_distribution=dict(hist, ops_stream=sum(1 for c in cases if is_ops(c))),
+                   samples=[c for c in cases if overlap(c)][:3], extra=dict(fixed_clear=fixed_clear(), input_distribution=dict(hist, ops_stream=sum(1 for c in cases if is_ops(c)),
+                                                           fortran_stream=sum(1 for c in cases if is_fortran(c))),
                             impl_vs_model_mismatches=len(ev["badI"]), result_differs_from_fresh=len(ev["leak"])),
                    trusted_base=["the fresh interpreter (subprocess, PYTHONPATH=REPO, own cwd) is the reference for 'first model handled by the process'",
                                  "numpy float64 arithmetic is exact on the generated dyadic data (results are compared as exact rationals)",
                                  "the model's observable is a projection (argument names, k values, state map, dy, exception class); the "
                                  "edge-argument values are compared only between the two real runs"],
-                   assumptions=["guard Compatible = CachesClean && TemplateClean, computed by the cache model itself on the history",
+                   assumptions=["guards computed by the cache model itself on the history: CachesClean (frontend caches; for a Fortran final also the table of Python "
+                                "modules by file name), TemplateClean (final from_yaml), FortranClean (final Fortran compile: no extension module imported before)",
                                 "model domain: one operator per node (x, k, r; polynomial right-hand side), weighted edges x -> r without delay, one "
-                                "structural class per circuit when vectorizing, default backend; input_labels and the Fortran/sys.modules path are not exercised",
+                                "structural class per circuit when vectorizing; Fortran backend only non-vectorized, one-node models, thorough tier; input_labels not exercised",
                                 "SHA-256 of the generated source is treated as injective (module cache keyed by the source itself)"])
 
 if __name__ == "__main__":
